@@ -474,8 +474,231 @@ def extract(src_root):
     return out, problems
 
 
+# ---------------------------------------------------------------- discriminators (a key computed two ways) / leaked loop variables
+def _bindings(fns, name):
+    """every statement of the functions `fns` (innermost first) that binds `name`, as text with the if-tests guarding it"""
+    out = []
+    for fn in fns:
+        par = _parents(fn)
+        inner = set()
+        for f2 in ast.walk(fn):
+            if isinstance(f2, (ast.FunctionDef, ast.Lambda)) and f2 is not fn:
+                inner.update(id(x) for x in ast.walk(f2) if x is not f2)
+        for n in ast.walk(fn):
+            if id(n) in inner:
+                continue
+            tgs = []
+            if isinstance(n, ast.Assign):
+                tgs = n.targets
+            elif isinstance(n, (ast.AugAssign, ast.AnnAssign, ast.For, ast.NamedExpr)):
+                tgs = [n.target]
+            elif isinstance(n, ast.With):
+                tgs = [i.optional_vars for i in n.items if i.optional_vars is not None]
+            if not any(isinstance(x, ast.Name) and x.id == name for t in tgs for x in ast.walk(t)):
+                continue
+            guards, tests, cur = [], [], n
+            while id(cur) in par and cur is not fn:
+                up = par[id(cur)]
+                if isinstance(up, ast.If):
+                    tests.append(up.test)          # the binding depends on what the test reads
+                    guards.append(('if ' if any(cur is st for st in up.body) else 'unless ') + ast.unparse(up.test))
+                elif isinstance(up, (ast.For, ast.While)):
+                    guards.append('in-loop ' + (ast.unparse(up.target) if isinstance(up, ast.For) else ast.unparse(up.test)))
+                elif isinstance(up, ast.Try):
+                    guards.append('in-try')
+                cur = up
+            if isinstance(n, ast.For):
+                txt = 'for %s in %s' % (ast.unparse(n.target), ast.unparse(n.iter))
+                rhs = [n.iter]
+            elif isinstance(n, ast.With):
+                txt = 'with ' + ', '.join(ast.unparse(i) for i in n.items)
+                rhs = [i.context_expr for i in n.items]
+            else:
+                txt = ast.unparse(n)
+                rhs = [n.value] if getattr(n, 'value', None) is not None else []
+            out.append(('; '.join(reversed(guards)) + (': ' if guards else '') + txt, rhs + tests))
+        if out:
+            break           # the innermost function that binds the name (a closure reads the enclosing binding otherwise)
+    return out
+
+
+def disc_slice(fns, expr, depth=0, seen=None):
+    """(text, roots): the expression together with every binding of the local names it reads, transitively; roots = the names
+    it finally depends on that no statement binds (parameters, globals)"""
+    seen = set() if seen is None else seen
+    lines, roots = [ast.unparse(expr)], set()
+    for nm in _names(expr):
+        if nm in seen:
+            continue
+        bs = _bindings(fns, nm)
+        if not bs or depth >= 4:
+            roots.add(nm)
+            continue
+        seen = seen | {nm}
+        selfref = False
+        for txt, rhs in bs:
+            lines.append('  ' * (depth + 1) + txt)
+            for r in rhs:
+                if nm in _names(r):
+                    selfref = True
+                t2, r2 = disc_slice(fns, r, depth + 1, seen)
+                lines += t2[1:]
+                roots |= r2
+        isparam = any(nm in [x.arg for x in f.args.posonlyargs + f.args.args + f.args.kwonlyargs] for f in fns)
+        if selfref or isparam:
+            roots.add(nm)           # `name = name + '/'`: still the parameter
+    if depth == 0:
+        seen_l, out_l = set(), []
+        for l in lines:
+            if l not in seen_l:
+                seen_l.add(l)
+                out_l.append(l)
+        lines = out_l
+    return lines, roots
+
+
+def _action_calls(outer):
+    out = []
+    for n in ast.walk(outer):
+        if isinstance(n, ast.Call) and isinstance(n.func, ast.Attribute) and n.func.attr == 'action' \
+                and isinstance(n.func.value, ast.Name) and n.func.value.id in ('self', 'config'):
+            d = n.args[0] if n.args else next((kw.value for kw in n.keywords if kw.arg == 'discriminator'), None)
+            intrs = next((kw.value for kw in n.keywords if kw.arg == 'introspectables'), None)
+            out.append((n, d, intrs))
+    return sorted(out, key=lambda t: (t[0].lineno, t[0].col_offset))
+
+
+def _is_none(e):
+    return e is None or (isinstance(e, ast.Constant) and e.value is None)
+
+
+def leaked_loop_vars(fn):
+    """names bound by a `for` target of fn (closures excluded) and READ outside every loop that binds them, while nothing
+    else binds them outside those loops: after the loop such a name is the LAST element (or unbound)"""
+    inner = set()
+    for f2 in ast.walk(fn):
+        if isinstance(f2, (ast.FunctionDef, ast.Lambda, ast.ListComp, ast.SetComp, ast.DictComp, ast.GeneratorExp)) and f2 is not fn:
+            inner.update(id(x) for x in ast.walk(f2) if x is not f2)
+    loops = {}
+    for n in ast.walk(fn):
+        if isinstance(n, ast.For) and id(n) not in inner:
+            for x in ast.walk(n.target):
+                if isinstance(x, ast.Name):
+                    loops.setdefault(x.id, []).append(n)
+    out = []
+    params = {x.arg for x in fn.args.posonlyargs + fn.args.args + fn.args.kwonlyargs}
+    for nm, ls in sorted(loops.items()):
+        inside = set()
+        for l in ls:
+            inside.update(id(x) for x in ast.walk(l))
+        uses = [x for x in ast.walk(fn) if isinstance(x, ast.Name) and x.id == nm and id(x) not in inside]
+        # closures / comprehensions reading the name after the loop count as reads too (late binding)
+        reads = [x for x in uses if isinstance(x.ctx, ast.Load)]
+        binds = [x for x in uses if isinstance(x.ctx, ast.Store) and id(x) not in inner]
+        if reads and not binds and nm not in params:
+            out.append((nm, min(x.lineno for x in reads)))
+    return out
+
+
+# actions without a discriminator beside discriminated ones that only VALIDATE (register nothing): (directive, callable)
+VALIDATION_ONLY = {('SecurityConfiguratorMixin.set_authorization_policy', 'ensure')}
+
+
+def _all_params(fns):
+    out = set()
+    for f in fns:
+        a = f.args
+        out.update(x.arg for x in a.posonlyargs + a.args + a.kwonlyargs)
+        if a.vararg:
+            out.add(a.vararg.arg)
+        if a.kwarg:
+            out.add(a.kwarg.arg)
+    return out
+
+
+def disc_facts(src_root):
+    """-> (rows, problems).  One row per introspectable site: the slice of its discriminator, the slice of the discriminator
+    of every action its directive issues, and the root names both depend on.  Structural facts (fail-closed):
+      * a directive that issues two or more actions gives each of them a discriminator (an overridden statement is dropped
+        as a whole by conflict resolution, never half of it);
+      * no loop variable of an entry-building function is read outside its loop."""
+    rows, problems = [], []
+    for base in FILES:
+        rel = 'pyramid/config/%s.py' % base
+        try:
+            tree = ast.parse(open(os.path.join(src_root, rel)).read())
+        except (OSError, SyntaxError) as e:
+            problems.append('cannot parse %s: %s' % (rel, e))
+            continue
+        quals = _quals(tree)
+        done_outer = set()
+        for fn in [n for n in ast.walk(tree) if isinstance(n, ast.FunctionDef)]:
+            inner = set()
+            for f2 in ast.walk(fn):
+                if isinstance(f2, ast.FunctionDef) and f2 is not fn:
+                    inner.update(id(x) for x in ast.walk(f2))
+            calls = [n for n in ast.walk(fn) if id(n) not in inner and isinstance(n, ast.Assign) and isinstance(n.value, ast.Call)
+                     and isinstance(n.value.func, ast.Attribute) and n.value.func.attr == 'introspectable'
+                     and len(n.targets) == 1 and isinstance(n.targets[0], ast.Name) and len(n.value.args) >= 2]
+            if not calls:
+                continue
+            qual, chain = quals[id(fn)]
+            outer = chain[0] if chain else fn
+            fns = [fn] + list(reversed(chain))
+            for nm, line in leaked_loop_vars(fn):
+                problems.append('%s:%s: the loop variable %s is read outside its loop (line %d): there it is the LAST element, '
+                                'whatever the entry being built' % (rel, qual, nm, line))
+            acts = _action_calls(outer)
+            if id(outer) not in done_outer:
+                done_outer.add(id(outer))
+                if len(acts) >= 2:
+                    for a, d, intrs in acts:
+                        cb = a.args[1] if len(a.args) > 1 else next((kw.value for kw in a.keywords if kw.arg == 'callable'), None)
+                        if _is_none(d) and (quals[id(outer)][0], ast.unparse(cb) if cb is not None else '') in VALIDATION_ONLY:
+                            continue
+                        if _is_none(d):
+                            problems.append('%s:%s issues %d actions and the one at line %d has no discriminator: conflict '
+                                            'resolution would drop only part of an overridden statement'
+                                            % (rel, quals[id(outer)][0], len(acts), a.lineno))
+            act_rows = []
+            for a, d, intrs in acts:
+                if _is_none(d):
+                    act_rows.append({'text': ['None'], 'roots': [], 'none': True,
+                                     'carries': _names(intrs) if intrs is not None else []})
+                else:
+                    t, r = disc_slice([outer], d)
+                    act_rows.append({'text': t, 'roots': sorted(r), 'none': False,
+                                     'carries': _names(intrs) if intrs is not None else []})
+            for n in calls:
+                var = n.targets[0].id
+                t, r = disc_slice(fns, n.value.args[1])
+                cat = n.value.args[0]
+                ps = _all_params(fns)
+                carrying = [a_ for a_ in act_rows if a_['carries']]
+                rows.append({'site': '%s:%s.%s' % (rel, qual, var), 'line': n.lineno,
+                             'category': ast.unparse(cat), 'intr': t, 'intr_roots': sorted(r),
+                             'intr_none': _is_none(n.value.args[1]), 'actions': act_rows,
+                             # parameters the discriminators of the actions that carry entries depend on
+                             'action_param_roots': sorted({x for a_ in carrying for x in a_['roots'] if x in ps})})
+    # two sites of one function may share a variable name (exclusive branches): number them
+    seen = {}
+    for r_ in rows:
+        k = r_['site']
+        seen[k] = seen.get(k, 0) + 1
+        if seen[k] > 1:
+            r_['site'] = '%s#%d' % (k, seen[k])
+    return rows, problems
+
+
 if __name__ == '__main__':
     import sys
+    if '--write-disc-pins' in sys.argv:
+        import json
+        rows, problems = disc_facts(sys.argv[1])
+        with open(os.path.join(os.path.dirname(os.path.abspath(__file__)), 'pins_discriminators.json'), 'w') as f:
+            json.dump({r['site']: {'entry': r['intr'], 'actions': [a['text'] for a in r['actions']]} for r in rows}, f, indent=1)
+        print('wrote %d rows; problems: %s' % (len(rows), problems))
+        sys.exit(0)
     sites, problems = extract(sys.argv[1])
     for s in sites:
         print('%s %s.%s [%s] disc=%s' % (s['file'].split('/')[-1], s['func'], s['var'], s['category'], s['discriminator']))
